@@ -47,6 +47,8 @@ def worker(job):
         kw["office"] = rng.choice(["S", "P", "S", "H"])      # mostly offices that have a national summary
         if kw["office"] != "H":
             # enough contests for the summary (a count of contests) to react to a change of the contest-level distributions
+            kw["tossup"] = True
+            kw["frac_reporting"] = rng.choice([0.4, 0.5, 0.7])
             kw["n_states"] = rng.choice([6, 8, 10])
             kw["n_units"] = kw["n_states"] * rng.randint(14, 20)
     final = gen.gen_case(rng, pi_method=pi, n_unexpected=rng.choice([0, 1]), **kw)
@@ -70,10 +72,13 @@ def worker(job):
         # three earlier summaries on that client
         import copy
 
-        final2 = copy.deepcopy(final)
-        mp2 = final2["params"]["model_parameters"]
-        mp2["national_summary_correlation"] = not mp2.get("national_summary_correlation", True)
-        alt = ({"cases": [final2], "nat_sum": True}, {"cases": [final2], "nat_sum": True, "nat_sum_history": True})
+        alt = []
+        for t in range(3):
+            final2 = copy.deepcopy(final)
+            mp2 = final2["params"]["model_parameters"]
+            mp2["national_summary_correlation"] = not mp2.get("national_summary_correlation", True)
+            mp2["seed"] = 100 + t
+            alt.append(({"cases": [final2], "nat_sum": True, "nat_unit_weights": True}, {"cases": [final2], "nat_sum": True, "nat_sum_history": True, "nat_unit_weights": True}))
     res = {}
     ref = sub_run(scenarios["plain"], "0", f"{seed}_ref")
     res["ref"] = ref
@@ -96,10 +101,10 @@ def worker(job):
         elif bool(ref.get("ok")) != bool(r.get("ok")):
             pair["diff"] = f"outcome differs: {ref.get('exc')} vs {r.get('exc')}"
         out["pairs"].append(pair)
-    if alt is not None:
-        ra = sub_run(alt[0], "0", f"{seed}_altref")
-        rb = sub_run(alt[1], "1", f"{seed}_althist")
-        pair = {"name": "summary-after-summaries (other correlation mode)", "hashseed": "1", "ok": bool(ra.get("ok") and rb.get("ok")), "exc": rb.get("exc"), "diff": None}
+    for t, (sa, sb) in enumerate(alt or []):
+        ra = sub_run(sa, "0", f"{seed}_altref{t}")
+        rb = sub_run(sb, "1", f"{seed}_althist{t}")
+        pair = {"name": f"summary-after-summaries (other correlation mode, model seed {100 + t})", "hashseed": "1", "ok": bool(ra.get("ok") and rb.get("ok")), "exc": rb.get("exc"), "diff": None}
         if ra.get("ok") and rb.get("ok"):
             if ra["tables"] != rb["tables"]:
                 pair["diff"] = "tables differ"
